@@ -200,6 +200,11 @@ func visitInstr(fr *frame, instr ssa.Instruction) continuation {
 
 	case *ssa.UnOp:
 		fr.env[instr] = unop(instr, fr.get(instr.X))
+		if instr.Op == token.MUL && theEngine != nil && theEngine.TraceEvents {
+			if a, ok := fr.get(instr.X).(*value); ok {
+				theEngine.noteCell(fr, "read", a, instr.Pos())
+			}
+		}
 
 	case *ssa.BinOp:
 		fr.env[instr] = binop(instr.Op, instr.X.Type(), fr.get(instr.X), fr.get(instr.Y))
@@ -256,6 +261,9 @@ func visitInstr(fr *frame, instr ssa.Instruction) continuation {
 
 	case *ssa.Store:
 		store(mustDeref(instr.Addr.Type()), fr.get(instr.Addr).(*value), fr.get(instr.Val))
+		if theEngine != nil && theEngine.TraceEvents {
+			theEngine.noteCell(fr, "write", fr.get(instr.Addr).(*value), instr.Pos())
+		}
 
 	case *ssa.If:
 		succ := 1
